@@ -18,13 +18,13 @@ import (
 // C15 — declared item sizes [n], [a..b], [a..], [..b] are enforced.
 
 type c15Case struct {
-	Op    string `json:"op"`    // literal | asciivar
-	Kind  string `json:"kind"`  // item type
-	Form  string `json:"form"`  // n | a..b | a.. | ..b
-	Lo    string `json:"lo"`    // decimal (may exceed a machine word), "" when absent
-	Hi    string `json:"hi"`    // decimal, "" when absent
-	Count int    `json:"count"` // actual element count of the literal / fill length
-	Style int    `json:"style"` // rendering variant
+	Op    string `json:"op"`             // literal | asciivar
+	Kind  string `json:"kind"`           // item type
+	Form  string `json:"form"`           // n | a..b | a.. | ..b
+	Lo    string `json:"lo"`             // decimal (may exceed a machine word), "" when absent
+	Hi    string `json:"hi"`             // decimal, "" when absent
+	Count int    `json:"count"`          // actual element count of the literal / fill length
+	Style int    `json:"style"`          // rendering variant
 	Text  string `json:"text,omitempty"` // op=several: the text as parsed (replay re-parses it and prints the diagnostics)
 }
 
@@ -228,6 +228,7 @@ func c15ASCIIVar(c *ctx, cs c15Case) {
 		return
 	}
 	m := msgs[0]
+	printedBefore := m.String() // before anything is filled
 	maxInt := new(big.Int).SetUint64(1<<63 - 1)
 	huge := lo.Cmp(maxInt) > 0 || (hi != nil && hi.Cmp(maxInt) > 0)
 	// the bounds are kept in the template ...
@@ -270,6 +271,17 @@ func c15ASCIIVar(c *ctx, cs c15Case) {
 	} else {
 		c.Class("asciivar/fill-refused")
 	}
+	// the template keeps its bounds whatever was filled (or refused) through it or through a message derived from it
+	sib := m.SetSessionIDAndSystemBytes(5, []byte{1, 2, 3, 4})
+	real.Try(func() { sib.FillVariables(map[string]interface{}{"TEXT": s}) })
+	real.Try(func() { sib.FillVariables(map[string]interface{}{"TEXT": strings.Repeat("y", l+1)}) })
+	if l > 0 {
+		real.Try(func() { m.FillVariables(map[string]interface{}{"TEXT": strings.Repeat("z", l-1)}) })
+	}
+	c.Class("asciivar/template-re-read-after-fills")
+	if now := m.String(); now != printedBefore || itemPart(sib.String()) != itemPart(printedBefore) {
+		c.Violation("C15/template-bounds-changed-by-a-fill/"+sig, fmt.Sprintf("declared %s: the template printed %q before the fills and prints %q now (a sibling message prints %q)", decl, clipS(printedBefore), clipS(now), clipS(sib.String())), cs)
+	}
 }
 
 // c15Direct checks FillInStringLength() on templates built by the factory and by the parser.
@@ -278,7 +290,12 @@ func c15ASCIIVar(c *ctx, cs c15Case) {
 // each at its declaration, whatever stands before it.
 func c15Several(c *ctx, i int, r *rng.R) {
 	n := 2 + r.Intn(4)
-	toks := []smltext.Tok{smltext.H("S1F1"), smltext.H("W"), smltext.H("H->E"), smltext.H("<"), smltext.H("L")}
+	toks := []smltext.Tok{smltext.H("S1F1"), smltext.H("W"), smltext.H("H->E")}
+	if r.Chance(1, 3) {
+		// a message name, now and then with characters of more than one byte (columns count characters)
+		toks = append(toks, smltext.H([]string{"name", "\u540d\u524d", "\u00dcn\u00efc\u00f6d\u00e9", "\u00e9", "\u2192x", "\U0001F600ok"}[r.Intn(6)]))
+	}
+	toks = append(toks, smltext.H("<"), smltext.H("L"))
 	type decl struct {
 		idx      int
 		violated bool
@@ -563,8 +580,8 @@ func runC15(c *ctx) {
 	var extra []sized
 	for _, d := range []struct {
 		typ, decl, body string
-		n          int // elements written
-		lo, hi     int // hi -1: unbounded
+		n               int // elements written
+		lo, hi          int // hi -1: unbounded
 	}{
 		{"U1", "[2]", "300", 1, 2, 2}, {"U1", "[1]", "300 1", 2, 1, 1}, {"I2", "[3..]", "1.5 2", 2, 3, -1}, {"B", "[..1]", "1 256 3", 3, 0, 1},
 		{"F4", "[2]", "1e99 1 2", 3, 2, 2}, {"A", "[5]", "\"ab\" 300", 3, 5, 5},
@@ -605,7 +622,7 @@ func runC15(c *ctx) {
 	}
 	c15Direct(c)
 	c.parallel(c.pick(30000, 300000), func(i int, r *rng.R) { c15Several(c, i, r) })
-	c.Required = []string{"several-sized-items-in-one-message", "several-violated-declarations", "literal/within", "literal/outside", "literal/form=n", "literal/form=a..b", "literal/form=a..", "literal/form=..b", "asciivar/fill-accepted", "asciivar/fill-refused", "asciivar/inverted-bounds", "direct-fill", "zero-padded-bounds", "same-name-other-bounds", "sized-items-with-variables-or-a-second-error"}
+	c.Required = []string{"several-sized-items-in-one-message", "several-violated-declarations", "asciivar/template-re-read-after-fills", "literal/within", "literal/outside", "literal/form=n", "literal/form=a..b", "literal/form=a..", "literal/form=..b", "asciivar/fill-accepted", "asciivar/fill-refused", "asciivar/inverted-bounds", "direct-fill", "zero-padded-bounds", "same-name-other-bounds", "sized-items-with-variables-or-a-second-error"}
 }
 
 func replayC15(c *ctx, raw json.RawMessage) {
